@@ -1,15 +1,16 @@
 // C10 bounded stand-in: builders are functions of the logical input.
 //
 // Bounds (quick | thorough):
-//   directories: entry sets {1, colliding(7), 9, 60, 300} | + {2000}; for each, 6 | 30 random
-//     permutations (VERIF_SEED) plus the reversed order, built with BuildUnixFSDirectory, with
-//     BuildUnixFSShardedDirectory for fanouts {8,256} | {8,16,64,256,1024}, and through the quick
-//     builder's map (Go map order) -> link and size identical to the first build; a second store
-//     gets the same result (repeated build).
-//   files: widths {2,3,174}; chunkers size-4 (lengths 0..41), size-7, rabin-16-32-64 (3000 bytes),
-//     default "" (300000 bytes) | + buzhash (700000 bytes), size-262144 (600001 bytes); readers:
-//     bytes.Reader (baseline), iotest.OneByteReader, HalfReader, DataErrReader, a random fragmenter
-//     (1..9 byte reads, 5 | 40 draws) -> link and size identical to the baseline.
+//
+//	directories: entry sets {1, colliding(7), 9, 60, 300} | + {2000}; for each, 6 | 30 random
+//	  permutations (VERIF_SEED) plus the reversed order, built with BuildUnixFSDirectory, with
+//	  BuildUnixFSShardedDirectory for fanouts {8,256} | {8,16,64,256,1024}, and through the quick
+//	  builder's map (Go map order) -> link and size identical to the first build; a second store
+//	  gets the same result (repeated build).
+//	files: widths {2,3,174}; chunkers size-4 (lengths 0..41), size-7, rabin-16-32-64 (3000 bytes),
+//	  default "" (300000 bytes) | + buzhash (700000 bytes), size-262144 (600001 bytes); readers:
+//	  bytes.Reader (baseline), iotest.OneByteReader, HalfReader, DataErrReader, a random fragmenter
+//	  (1..9 byte reads, 5 | 40 draws) -> link and size identical to the baseline.
 package c10
 
 import (
@@ -173,11 +174,13 @@ func TestBounded(t *testing.T) {
 				t.Fatalf("%s: %s", id, base.err)
 			}
 			readers := map[string]func() io.Reader{
-				"repeat":   func() io.Reader { return bytes.NewReader(content) },
-				"onebyte":  func() io.Reader { return iotest.OneByteReader(bytes.NewReader(content)) },
-				"half":     func() io.Reader { return iotest.HalfReader(bytes.NewReader(content)) },
-				"dataerr":  func() io.Reader { return iotest.DataErrReader(bytes.NewReader(content)) },
-				"buffered": func() io.Reader { return io.MultiReader(bytes.NewReader(content[:len(content)/2]), bytes.NewReader(content[len(content)/2:])) },
+				"repeat":  func() io.Reader { return bytes.NewReader(content) },
+				"onebyte": func() io.Reader { return iotest.OneByteReader(bytes.NewReader(content)) },
+				"half":    func() io.Reader { return iotest.HalfReader(bytes.NewReader(content)) },
+				"dataerr": func() io.Reader { return iotest.DataErrReader(bytes.NewReader(content)) },
+				"buffered": func() io.Reader {
+					return io.MultiReader(bytes.NewReader(content[:len(content)/2]), bytes.NewReader(content[len(content)/2:]))
+				},
 			}
 			draws := vp.Pick(5, 40)
 			if fc.size > 10000 {
